@@ -121,10 +121,10 @@ func (x *fx) call(i *ssa.Call, cc *ssa.CallCommon) {
 			}
 		}
 	}
-	if keeps, ok := x.c.CallKeeps[dname]; ok && i != nil {
+	if keeps, ok := x.c.CallKeeps[dname]; ok && x.curInstr != nil {
 		// unmodelled callee that is assumed to leave the listed regions unchanged
 		pre := x.curMem
-		env := x.instrEnv(i)
+		env := x.instrEnv(x.curInstr)
 		var regs []region
 		for _, e := range keeps {
 			func() {
@@ -245,10 +245,26 @@ func (x *fx) havocAllMem(tagp string) {
 	h := x.newMem("havoc", x.curMem)
 	h.tag = fmt.Sprintf("%s%d", tagp, x.nver)
 	h.set = nil
-	h.frame = x.frameVsEntry(x.curMem)
+	base := x.frameVsEntry(x.curMem)
+	h.frame = func(n, nv, ov string) {
+		if strings.HasPrefix(n, "$g.") {
+			// an unmodelled callee is assumed not to touch ghost state
+			x.assume("(= " + nv + " " + ov + ")")
+			x.assumptions["unmodelled callees (abstracted mode) do not change ghost state "+n] = true
+			return
+		}
+		base(n, nv, ov)
+		// non-escaping locals of this activation are out of the callee's reach
+		if !strings.HasPrefix(n, "$") {
+			for _, r := range x.localRefs {
+				x.assume(fmt.Sprintf("(= (select %s %s) (select %s %s))", nv, r, ov, r))
+			}
+		}
+	}
 	x.curMem = h
 	x.noteHavocAll()
 }
+
 
 func (x *fx) staticCall(f *ssa.Function, bindings []ssa.Value, cc *ssa.CallCommon, rt types.Type, set func(*Val)) {
 	var args []*Val
@@ -369,6 +385,18 @@ func (x *fx) applyContract(c2 *Contract, f *ssa.Function, sig *types.Signature, 
 				if x.freshRefs[r.ref] {
 					continue
 				}
+				if r.ref == "ghost" {
+					ok := false
+					for _, q := range x.regions {
+						if q.mem == r.mem {
+							ok = true
+						}
+					}
+					if !ok {
+						x.oblige("frame", "ghost:"+name, "false", "callee "+name+" changes ghost state "+r.mem+" which this function's modifies clause does not list")
+					}
+					continue
+				}
 				var in []string
 				in = append(in, "(>= "+r.ref+" "+x.top0+")", x.ile(r.hi, r.lo))
 				for _, q := range x.regions {
@@ -388,6 +416,9 @@ func (x *fx) applyContract(c2 *Contract, f *ssa.Function, sig *types.Signature, 
 			if n == "$top" {
 				x.assume("(>= " + newV + " " + oldV + ")")
 				return
+			}
+			if strings.HasPrefix(n, "$g.") {
+				return // ghost state: fully described by the callee's ensures
 			}
 			x.assume(x.frameFormula(n, newV, oldV, regs, preTop))
 		}
@@ -445,6 +476,12 @@ func (x *fx) applyContract(c2 *Contract, f *ssa.Function, sig *types.Signature, 
 
 // regionsOf evaluates a modifies designator.
 func (x *fx) regionsOf(e *Expr, env *specEnv) []region {
+	if e.Op == "id" && env.look(e.Name) == nil {
+		if gv, ok := x.g.ghosts[e.Name]; ok {
+			name, _ := x.ghostMem(gv)
+			return []region{{mem: name, ref: "ghost"}}
+		}
+	}
 	// p.f : a single field of the struct p points to
 	if e.Op == "field" {
 		base := x.eval(e.Args[0], env)
